@@ -239,6 +239,9 @@ func replicasOf(w W) *int32 {
 var (
 	arena        = make([]filter.Filter, 0, 1<<14)
 	arenaTerms   []*Term
+	primaryBuild bool
+	lastStart    int // window of the most recent composite that was laid out in the arena
+	lastLen      int
 	scratchIDs   = make([]nsname.NSName, 0, 8)
 	scratchMap   = map[string]string{}
 	scratchNames = make([]string, 0, 8)
@@ -267,19 +270,48 @@ func (t *Term) Build() filter.Filter {
 		// The children of successive composites live in one backing array, and a composite whose first child is
 		// the previous composite's last child is given an overlapping window of it (all[:2], all[1:]): a filter
 		// only reads the slice it was given.
+		if !primaryBuild {
+			// rebuilds and permutations (equality checks) get plain argument slices of their own
+			if t.Op == "and" {
+				return filter.And(cs...)
+			}
+			return filter.Or(cs...)
+		}
 		var window []filter.Filter
 		n := len(arena)
 		if n+len(cs) > cap(arena) {
 			arena, arenaTerms, n = make([]filter.Filter, 0, 1<<14), nil, 0
+			lastStart, lastLen = 0, 0
 		}
-		if n > 0 && len(cs) >= 2 && arenaTerms[n-1] == t.Cs[0] {
+		samePrefix := func(k int) bool { // the first k children are the terms at the start of the previous window
+			if k > len(t.Cs) || lastStart+k > n {
+				return false
+			}
+			for i := 0; i < k; i++ {
+				if arenaTerms[lastStart+i] != t.Cs[i] {
+					return false
+				}
+			}
+			return k > 0
+		}
+		if n > 0 && lastLen > 0 && lastStart+lastLen == n && len(cs) > lastLen && samePrefix(lastLen) {
+			// the previous composite's children plus more: views all[:k] and all[:m] of one growing slice
+			arena = append(arena, cs[lastLen:]...)
+			arenaTerms = append(arenaTerms, t.Cs[lastLen:]...)
+			window = arena[lastStart : lastStart+len(cs)]
+		} else if n > 0 && lastLen > len(cs) && len(cs) > 0 && samePrefix(len(cs)) {
+			// a shorter view from the same start
+			window = arena[lastStart : lastStart+len(cs)]
+		} else if n > 0 && len(cs) >= 2 && arenaTerms[n-1] == t.Cs[0] {
 			arena = append(arena, cs[1:]...)
 			arenaTerms = append(arenaTerms, t.Cs[1:]...)
 			window = arena[n-1 : n-1+len(cs)]
+			lastStart, lastLen = n-1, len(cs)
 		} else {
 			arena = append(arena, cs...)
 			arenaTerms = append(arenaTerms, t.Cs...)
 			window = arena[n : n+len(cs)]
+			lastStart, lastLen = n, len(cs)
 		}
 		if t.Op == "and" {
 			return filter.And(window...)
@@ -628,6 +660,24 @@ func combTerms(tier string, rng *rand.Rand) []*Term {
 			ts = append(ts, &Term{Op: "and", Cs: []*Term{a, b}}, &Term{Op: "or", Cs: []*Term{a, b}})
 		}
 	}
+	// double and triple negation; composites with an empty composite inside (the neutral element of the OTHER kind matters)
+	for _, l := range all {
+		ts = append(ts, &Term{Op: "not", C: &Term{Op: "not", C: l}}, &Term{Op: "not", C: &Term{Op: "not", C: &Term{Op: "not", C: l}}})
+	}
+	for _, l := range core {
+		for _, o1 := range []string{"and", "or"} {
+			for _, o2 := range []string{"and", "or"} {
+				ts = append(ts, &Term{Op: o1, Cs: []*Term{l, {Op: o2}}}, &Term{Op: o1, Cs: []*Term{{Op: o2}, l}}, &Term{Op: o1, Cs: []*Term{{Op: o2}}})
+			}
+		}
+	}
+	// views of one growing slice: the same start, more and fewer children
+	for _, op := range []string{"or", "and"} {
+		for i := 0; i+3 < len(core); i++ {
+			ts = append(ts, &Term{Op: op, Cs: []*Term{core[i], core[i+1]}}, &Term{Op: op, Cs: []*Term{core[i], core[i+1], core[i+2]}},
+				&Term{Op: op, Cs: []*Term{core[i], core[i+1], core[i+2], core[i+3]}}, &Term{Op: op, Cs: []*Term{core[i]}})
+		}
+	}
 	// chains: each composite starts with the child the previous one ended with (overlapping argument windows)
 	for _, op := range []string{"or", "and"} {
 		for i := 0; i+2 < len(core); i++ {
@@ -810,7 +860,9 @@ func filtersMain(args []string) int {
 	var metas [][2]bool
 	nacc := 0
 	for i, t := range terms {
+		primaryBuild = true
 		f := t.Build()
+		primaryBuild = false
 		built[i] = f
 		acc := make([]byte, 0, 2*len(real))
 		for j, o := range real {
